@@ -42,6 +42,7 @@ Section Effects.
   Variable key_of : call -> key.
   Variable exec : world -> call -> world * reply.   (* semantics of an executed call *)
   Variable fail_reply : call -> reply.               (* what a call returns when it fails before executing *)
+  Variable faultable : call -> bool.                 (* can a fault hit this call?  (a channel send cannot fail) *)
 
   Inductive prog (A : Type) : Type :=
   | Ret (a : A)
@@ -123,18 +124,21 @@ Section Effects.
     end.
 
   (* ---- single fail-before fault addressed by the global call index ----
-     [Some k]: the k-th call from here fails before executing; [None]: no fault (left).
+     [Some k]: the k-th FAULTABLE call from here fails before executing; [None]: no fault (left).
+     Calls that are not faultable (sends on a result channel) execute without consuming the index.
      Every addressed fault of [run] is one of these (Calcium/EffectsProofs.v), so
      "for every k" covers every fault address. *)
   Fixpoint runk {A} (p : prog A) (w : world) (k : option nat) : world * option nat * A :=
     match p with
     | Ret a => (w, k, a)
     | Do c q =>
-      match k with
-      | Some O => runk (q (fail_reply c)) w None
-      | Some (S j) => let (w', r) := exec w c in runk (q r) w' (Some j)
-      | None => let (w', r) := exec w c in runk (q r) w' None
-      end
+      if faultable c then
+        match k with
+        | Some O => runk (q (fail_reply c)) w None
+        | Some (S j) => let (w', r) := exec w c in runk (q r) w' (Some j)
+        | None => let (w', r) := exec w c in runk (q r) w' None
+        end
+      else let (w', r) := exec w c in runk (q r) w' k     (* not a fault position: the index is not consumed *)
     end.
 
   (* number of non-Proceed decisions *)
